@@ -75,7 +75,7 @@ PROPS = {
             "R-TODO: no push/index body is unconditionally diverging",
             "index containers a region can be parameterised with keep push order (R-GUARD/R-CONCAT); the dictionary codec's reader and writer tables agree (R-TAGS/R-BITMAP/R-GUARD)",
         ],
-        "not_decided": ["element-for-element equality of values, NaN/ZST/extreme values, panics inside std", COMMON_ND],
+        "not_decided": ["element-for-element equality of values, NaN/ZST/extreme values, panics inside std", "lossy integer narrowing of values that the writer and the reader side both derive from one source (seeded change C01_d2: Huffman encode table narrowed to u32 codes; whether a value fits is value-level)", COMMON_ND],
     },
     "C02": {
         "rules": [A.r_append, A.r_freeze, A.r_foreign_writers, A.r_reject_stored, I.r_concat, CO.r_collapse_push],
@@ -176,9 +176,10 @@ PROPS = {
     "C10": {
         "rules": [L.r_reserve_only, L.r_fresh, L.r_seed,
                   todo({"reserve_items", "reserve_regions", "merge_regions", "reserve", "with_capacity"}),
-                  CD.r_tags, CD.r_bitmap, HF.r_code_source],
+                  CD.r_tags, CD.r_bitmap, HF.r_code_source, CD.r_stats],
         "explanation": "Reserve paths may only read/measure/reserve; merged regions are built from empty-sized constructors and seeded like default().",
-        "decided": ["R-RESERVE-ONLY", "R-FRESH", "R-SEED", "R-TODO", "for the dictionary-coded region, the merged codec's reader and writer tables agree (R-TAGS/R-BITMAP)"],
+        "decided": ["R-RESERVE-ONLY", "R-FRESH", "R-SEED", "R-TODO", "for the dictionary-coded region, the merged codec's reader and writer tables agree (R-TAGS/R-BITMAP)",
+            "R-STATS: every input a merged codec accepts enters the statistics the next merge generation is built from (a dictionary hit that is not recorded lets a successor region assign that leading byte as a tag and refuse inputs the default region accepts)"],
         "not_decided": ["capacity amounts (C17)"],
     },
     "C11": {
@@ -192,18 +193,21 @@ PROPS = {
     "C12": {
         "rules": [only(BR.r_bracket, DENSE_ONLY), only(L.r_seed, DENSE_ONLY), only(L.r_reset, DENSE_ONLY),
                   BR.r_reader_writer, BR.r_columns, only(A.r_append, DENSE_ONLY), only(L.r_fresh, DENSE_ONLY),
-                  BR.r_bracket, A.r_freeze, A.r_foreign_writers, A.r_reject_stored, I.r_concat],
+                  BR.r_bracket, A.r_freeze, A.r_foreign_writers, A.r_reject_stored, I.r_concat, only(L.r_clone, DENSE_ONLY)],
         "explanation": "Dense indices follow from one append of the end offset per push, the seeded leading 0 and index(k) = (offsets[k], offsets[k+1]).",
         "decided": ["R-BRACKET with seed 1 for ConsecutiveIndexPairs", "R-SEED: exactly one leading 0 in default/merge_regions/clear", "R-READER: index(k) reads offsets k and k+1 in order",
                     "R-COLUMNS: ColumnsRegion returns the inner dense index unchanged, creates missing columns first, rows carry exactly their own index slice",
-                    "R-APPEND/R-FRESH for the two types: no write or reserve path drops columns or offsets"],
+                    "R-APPEND/R-FRESH for the two types: no write or reserve path drops columns or offsets",
+            "R-CLONE for the dense-index regions: a copy made by clone/clone_from carries every column and every offset (creation by copying counts as creation)"],
         "not_decided": ["that the inner region's ranges are contiguous (its own R-BRACKET instance)"],
     },
     "C13": {
         "rules": [B.r_bound_readitems, B.r_index_failstop, B.r_bound_stride_sites, X.r_iter_readitems,
-                  X.r_iter_positions],
+                  X.r_iter_positions, A.r_freeze, A.r_foreign_writers, X.r_exact_size],
         "explanation": "Every positional access into shared storage must be dominated by a strict bound of the position against the item's own extent (the linear form len() returns).",
-        "decided": ["R-BOUND for ReadSlice/ReadSliceInner/ReadColumns/ReadColumnsInner/FlatStack get", "len/is_empty agreement", "R-ITER: iteration covers start..end; every iterator method (next and specialisations) takes its positions from the underlying range iterator"],
+        "decided": ["R-BOUND for ReadSlice/ReadSliceInner/ReadColumns/ReadColumnsInner/FlatStack get", "len/is_empty agreement", "R-ITER: iteration covers start..end; every iterator method (next and specialisations) takes its positions from the underlying range iterator",
+            "R-GUARD: the two-level offset containers that positional reads go through keep push order (the first level is written only while the second is empty), so position i of an item is never another item's element",
+            "R-ITER (exact size): every local ExactSizeIterator impl is backed by a size_hint (or len) override taken from the underlying iterator; without one the provided len() panics on every call (found ReadSliceIter / ReadSliceIterInner, fixed in /repo eda620f)"],
         "not_decided": [COMMON_ND],
     },
     "C14": {
@@ -233,15 +237,16 @@ PROPS = {
         "assumptions": ["only meaningful in the serde feature configuration"],
     },
     "C17": {
-        "rules": [AL.r_cover_merge, AL.r_cover_reserve, AL.r_cover_reserve_vec, AL.r_reserve_items_agree, AL.r_reserve_exact_count, AL.r_noalloc],
+        "rules": [AL.r_cover_merge, AL.r_cover_reserve, AL.r_cover_reserve_vec, AL.r_reserve_items_agree, AL.r_reserve_exact_count, AL.r_noalloc, AL.r_reserve_no_truncation, AL.r_reserve_hint_lower],
         "explanation": "Pre-sizing must cover every storage field from the same-named field of the sources; push paths of non-coded regions build no temporaries and never exact-fit.",
         "decided": ["R-COVER(merge_regions)", "R-COVER(reserve_regions)", "R-RESERVE-ITEMS", "R-NOALLOC / R-AMORTISED"],
         "not_decided": ["the amounts themselves, allocator call counts, the O(log n) bound"],
     },
     "C18": {
-        "rules": [L.r_cover_heap, L.r_retain, L.r_retain_noshrink, todo({"heap_size"})],
+        "rules": [L.r_cover_heap, L.r_retain, L.r_retain_noshrink, todo({"heap_size"}), L.r_reset],
         "explanation": "heap_size must forward the caller's callback to every storage field and report (len-derived, capacity-derived) in that order.",
-        "decided": ["R-COVER(heap_size)", "R-RETAIN: clear() never replaces a storage whose capacity is reported", "R-TODO"],
+        "decided": ["R-COVER(heap_size)", "R-RETAIN: clear() never replaces a storage whose capacity is reported", "R-TODO",
+            "R-RESET: clear() resets every storage field on every path (an early return that skips the reset keeps pushed payload accounted after clear)"],
         "not_decided": ["the byte lower bound against a reference model"],
     },
     "C19": {
